@@ -86,7 +86,7 @@ class Gen(object):
     def mailbox_pool(self, app):
         pool = list(self.known_mb.get(app, []))
         for m in self.p["client_mailboxes"]:
-            pool.append(m if self.p["shared_mailbox_ids"] else "%s-%s" % (app, m))
+            pool.append(m if (self.p["shared_mailbox_ids"] or m == "") else "%s-%s" % (app, m))
         if self.p.get("p_near_ids", 0.0) and pool and self.r.random() < self.p["p_near_ids"]:
             # ids that contain / are contained in / share a prefix with an id in use
             base = self.r.choice(pool)
